@@ -402,7 +402,7 @@ class BaseStackTransformation(Transformation):
 
                 # create stack_vars pair
                 stack_args += [stack_size_var,
-                               stack_var.clone(dimensions=stack_type.shape, type=stack_var.type.clone(contiguous=True)),
+                               stack_var.clone(dimensions=stack_type.shape),
                                stack_used_arg]
                 stack_vars += [stack_used_var]
                 pragma_vars.append(stack_var.name)
@@ -934,9 +934,9 @@ class FtrPtrStackTransformation(BaseStackTransformation):
                 stack_dim_upper += (dim,)
 
         if stack_dim_upper:
-            stack_dim_upper = Sum((int_var, Product(stack_dim_upper)))
+            stack_dim_upper = Sum((int_var, Product(stack_dim_upper), IntLiteral(-1)))
         else:
-            stack_dim_upper = Sum((int_var, IntLiteral(1)))
+            stack_dim_upper = int_var
         ptr_assignment = Assignment(lhs=array.clone(dimensions=arr_dim),
                                     rhs=stack_var.clone(dimensions=(RangeIndex((int_var, stack_dim_upper)))),
                                     ptr=True)
@@ -1264,7 +1264,9 @@ class DirectIdxStackTransformation(BaseStackTransformation):
             stack_var = temp_array_map[t.name][1]
             int_var = temp_array_map[t.name][2]
 
-            offset = IntLiteral(1)
+            # zero-based offset of the accessed element / section relative to ``int_var``,
+            # which holds the (one-based) stack position of the first element of the array
+            offset = IntLiteral(0)
             stack_size = IntLiteral(1)
 
             if t.dimensions:
@@ -1337,7 +1339,7 @@ class DirectIdxStackTransformation(BaseStackTransformation):
             stack_size = simplify(stack_size)
 
             # add offset to int_var
-            lower = Sum((int_var,) + offset.children if isinstance(offset, Sum) else (offset,))
+            lower = Sum((int_var,) + (offset.children if isinstance(offset, Sum) else (offset,)))
 
             if stack_size == IntLiteral(1):
                 # if a single element is accessed, we only need a number
@@ -1346,7 +1348,7 @@ class DirectIdxStackTransformation(BaseStackTransformation):
             else:
                 # else we'll  have to construct a range index
                 offset = simplify(Sum((offset, stack_size, Product((-1, IntLiteral(1))))))
-                upper = Sum((int_var,) + offset.children if isinstance(offset, Sum) else (offset,))
+                upper = Sum((int_var,) + (offset.children if isinstance(offset, Sum) else (offset,)))
                 stack_dimensions[0] = RangeIndex((lower, upper))
 
             # finally add to the mapping
